@@ -126,3 +126,12 @@ func uidOf(p []byte) []byte {
 }
 
 var _ = bytes.Equal
+
+// sealSIV seals plaintext with AES-SIV-CMAC-256 the way an NTS authenticator does.
+func sealSIV(key, nonce, plaintext, ad []byte) []byte {
+	aead, err := miscreant.NewAEAD("AES-CMAC-SIV", key, 16)
+	if err != nil {
+		panic(err)
+	}
+	return aead.Seal(nil, nonce, plaintext, ad)
+}
